@@ -210,9 +210,25 @@ def path_mapping(acc: Acc, r: random.Random, n: int) -> None:
 		rules.append('out')
 		Dummy.config.output_dirs = rules
 		files = []
-		for d in ['a', 'b', 'ab', 'a.b', 'aXb', 'a_b', 'pkg', 'pkg/sub', 'pkg/sub2', 'pkg/subx', 'x', 'xy', '']:
+		base_dirs = ['a', 'b', 'ab', 'a.b', 'aXb', 'a_b', 'pkg', 'pkg/sub', 'pkg/sub2', 'pkg/subx', 'x', 'xy', '']
+		# the text of a rule's prefix occurring again deeper in the path (src/core/src/vec.py beside src/core/vec.py)
+		for d in dirs:
+			base_dirs += [f'{d}/{d}', f'{d}/core/{d}', f'{d}/core', f'core/{d}']
+		for d in dict.fromkeys(base_dirs):
 			for fn in ['m.h', 'n.h', 'sub.h']:
 				files.append(f'{d}/{fn}' if d else fn)
+
+		def model(f: str) -> str:
+			# the documented reading of output_dirs: first rule that applies; '<dir>/*:<out>' keeps the whole path below <out>,
+			# '<dir>/:<out>' replaces that leading directory by <out>; the last entry is the fallback
+			for rule in rules[:-1]:
+				cond, o = rule.split(':')
+				if cond.endswith('*'):
+					if f.startswith(cond[:-1]) and len(f) > len(cond[:-1]):
+						return os.path.normpath(os.path.join(o, f))
+				elif f.startswith(cond):
+					return os.path.normpath(os.path.join(o, f[len(cond):]))
+			return os.path.normpath(os.path.join(rules[-1], f))
 		seen: dict[str, str] = {}
 		acc.see('path_rule_lists', 'checked')
 		for f in files:
@@ -221,6 +237,9 @@ def path_mapping(acc: Acc, r: random.Random, n: int) -> None:
 			except Exception as e:  # noqa
 				acc.violation('path-mapping-raises', f'{type(e).__name__}: {e} for {f} under {rules}', {'kind': 'paths', 'rules': rules})
 				return
+			# the statement only demands that distinct modules never share a path; agreement with a literal reading of the rule list is
+			# recorded, not judged (a '.' in a glob rule is read as a regex wildcard by the repository: 'a.b/*' also takes 'aXb/...')
+			acc.see('path_mapping', 'as-literal-reading' if out == model(f) else 'other-than-literal-reading')
 			if out in seen:
 				acc.violation('output-path-collision', f'{seen[out]} and {f} both map to {out} under {rules}', {'kind': 'paths', 'rules': rules, 'files': [seen[out], f]})
 				return
